@@ -81,6 +81,28 @@ impl ErrKind {
 
 pub const FAULT_MSG: &str = "injected source failure";
 
+/// Payload of the injected error: lets the checks tell the source's own error value from a
+/// re-created look-alike (same kind and text).
+#[derive(Debug)]
+pub struct InjectedFault;
+impl std::fmt::Display for InjectedFault {
+    fn fmt(&self, f: &mut std::fmt::Formatter<'_>) -> std::fmt::Result {
+        f.write_str(FAULT_MSG)
+    }
+}
+impl std::error::Error for InjectedFault {}
+
+pub const OWN_VALUE_TAG: &str = " [the source's own error value]";
+
+pub fn is_injected(e: &io::Error) -> bool {
+    e.get_ref().map_or(false, |r| r.is::<InjectedFault>())
+}
+
+/// Text of an I/O error as the drivers record it.
+pub fn describe_io(e: &io::Error) -> String {
+    format!("{}{}", e, if is_injected(e) { OWN_VALUE_TAG } else { "" })
+}
+
 /// A read schedule: a cyclic pattern of steps, an optional fault after exactly `k` delivered
 /// bytes, optionally bounded so that no read crosses a line end (or an explicit cut).
 #[derive(Serialize, Deserialize, Clone, Debug, PartialEq, Eq, Hash)]
@@ -294,7 +316,7 @@ impl Read for Source {
             return match self.sched.fail_at {
                 Some((_, kind)) => {
                     log.terminal_was_error = true;
-                    Err(io::Error::new(kind.kind(), FAULT_MSG))
+                    Err(io::Error::new(kind.kind(), InjectedFault))
                 }
                 None => Ok(0),
             };
@@ -388,6 +410,10 @@ pub struct Feed {
     /// `None`: keep the default chunk size (16 KiB).
     pub chunk: Option<usize>,
     pub ctor: Ctor,
+    /// The chunk size is configured only after the first byte was requested with the default
+    /// chunk size (a caller that sniffs the format first). Parser-level feeds only.
+    #[serde(default)]
+    pub late_chunk: bool,
 }
 
 impl Feed {
@@ -397,6 +423,7 @@ impl Feed {
             sched: Schedule::whole(),
             chunk: None,
             ctor: Ctor::FromRead,
+            late_chunk: false,
         }
     }
     pub fn chunk_size(&self) -> usize {
@@ -497,6 +524,9 @@ pub fn build_reader_consumed(
         Ctor::FreshBufReader(cap) => DeferredReader::from_buf_reader(BufReader::with_capacity(cap, src)),
     };
     if let Some(c) = feed.chunk {
+        if feed.late_chunk {
+            let _ = reader.request_byte();
+        }
         reader.set_chunk_size(c.max(1));
     }
     (reader, log, skipped)
@@ -561,7 +591,21 @@ pub fn ctor_strategy() -> impl Strategy<Value = Ctor> {
 
 pub fn feed_strategy() -> impl Strategy<Value = Feed> {
     (schedule_strategy(), chunk_strategy(), ctor_strategy())
-        .prop_map(|(sched, chunk, ctor)| Feed { sched, chunk, ctor })
+        .prop_map(|(sched, chunk, ctor)| Feed {
+            sched,
+            chunk,
+            ctor,
+            late_chunk: false,
+        })
+}
+
+/// Feeds for checks that drive a parser: like `feed_strategy`, and one in ten configures the
+/// chunk size only after a first read with the default size.
+pub fn parser_feed_strategy() -> impl Strategy<Value = Feed> {
+    (feed_strategy(), proptest::bool::weighted(0.1)).prop_map(|(mut f, late)| {
+        f.late_chunk = late && f.chunk.is_some();
+        f
+    })
 }
 
 pub fn errkind_strategy() -> impl Strategy<Value = ErrKind> {
